@@ -175,6 +175,16 @@ def _strategy_choice(ex, st, k):
     if whole:
         # level-wise strategies remove by level directory / SQL per level: they do not look at the coverage
         goal = z3.And(goal, complete)
+    # ... and each is used only with a cache that offers the operation it relies on (directory per level / per-level delete)
+    from pyvc.values import ObjSort as _OS
+    _callable = z3.Function('opaque_callable', _OS, z3.BoolSort())
+    cache = ex.opaque_field(st, ex.opaque_field(st, task, 'tile_manager'), 'cache')
+    has_dirs = _callable(ex.opaque_field(st, cache, 'level_location').t)
+    has_del = _callable(ex.opaque_field(st, cache, 'remove_level_tiles_before').t)
+    for e in whole:
+        goal = z3.And(goal, has_dirs if e.name == 'simple_cleanup' else z3.And(z3.Not(has_dirs), has_del))
+    if walk:
+        goal = z3.And(goal, z3.Or(z3.Not(complete), z3.And(z3.Not(has_dirs), z3.Not(has_del))))
     yield ('coverage_blind_strategies_only_for_complete_extent', goal,
            'simple_cleanup / cache_cleanup (which remove whole levels without consulting the task coverage) run only when '
            'task.complete_extent is true; every other task goes through the coverage-aware tile walker; one strategy per task')
@@ -183,7 +193,9 @@ def _strategy_choice(ex, st, k):
 contract('mapproxy.seed.cleanup:cleanup', props=['C12'],
          types=dict(tasks='list[opaque]', concurrency='opaque', dry_run='bool', skip_geoms_for_last_levels='opaque', verbose='opaque',
                     progress_logger='opt[opaque]'), returns='none', default_callee='opaque',
-         opaque_fields={'complete_extent': 'opaque', 'coverage': 'opaque'}, stable_fields=['complete_extent', 'coverage'],
+         opaque_fields={'complete_extent': 'opaque', 'coverage': 'opaque', 'tile_manager': 'opaque', 'cache': 'opaque',
+                        'level_location': 'opaque', 'remove_level_tiles_before': 'opaque'},
+         stable_fields=['complete_extent', 'coverage', 'tile_manager', 'cache', 'level_location', 'remove_level_tiles_before'],
          opaque_spec={'format_cleanup_task': {'pure': True}, 'get': {'pure': True}, 'SeedProgress': {'pure': True},
                       'DirectoryCleanupProgress': {'pure': True}, 'callable': {'returns': 'bool', 'pure': True},
                       'getattr': {'pure': True}, 'simple_cleanup': {}, 'cache_cleanup': {}, 'tilewalker_cleanup': {}, 'cleanup': {}},
